@@ -84,7 +84,8 @@ static bool in_lockall[MAXT], lockall_done[MAXT];
 static std::vector<std::string> g_viol;           // protocol / lockset violations of this execution
 static int first_lock_pending_validation[MAXT];   // 1 = first lock of an episode taken, RC_LOAD expected next
 static bool stored_hp_unbumped[MAXT];
-static int pending_append_gens[MAXT];            // >0: all_locks_.size() seen when this thread announced an append
+static int pending_append_gens[MAXT];
+static long pending_append_ev[MAXT];            // >0: all_locks_.size() seen when this thread announced an append
 
 static std::pair<int, int> canon_lock(const void *addr) {
   auto &gens = Access::all_locks(*g_tbl);
@@ -140,9 +141,13 @@ static void sched_point(int me) {
   switch_to(lk, me, nxt);
 }
 
+static thread_local bool in_handler = false;
+struct HandlerGuard { HandlerGuard() { in_handler = true; } ~HandlerGuard() { in_handler = false; } };
+
 static void handler(int kind, const void *addr, std::size_t value) {
   int me = my_tid;
-  if (me < 0) return;
+  if (me < 0 || in_handler) return;
+  HandlerGuard hguard;
   std::pair<int, int> ca{-1, -1};
   bool main_obj = true;
   switch (kind) {
@@ -173,16 +178,28 @@ static void handler(int kind, const void *addr, std::size_t value) {
     // events of the private temporary map of a rebuild: no scheduling, not recorded
     return;
   }
+  // A hook announces an operation that has not happened yet.  Yield first, and record the event only when this
+  // thread is resumed, i.e. immediately before it performs the operation: the trace order is the execution order.
+  // (no switch at EV_UNLOCK: a woken waiter runs at the releasing thread's next point)
+  switch (kind) {
+  case EV_LOCK_REQ: case EV_HP_LOAD: case EV_HP_STORE: case EV_RC_LOAD: case EV_RC_BUMP:
+  case EV_LOCKS_CURRENT: case EV_LOCKS_APPEND: case EV_LAZY_LOAD: case EV_LAZY_STORE: case EV_LAZY_DEC:
+    sched_point(me);
+    if (kind == EV_LOCK_REQ || kind == EV_LOCK_SPIN || kind == EV_LOCK_ACQ || kind == EV_UNLOCK) ca = canon_lock(addr);
+    break;
+  default: break;
+  }
   {
     std::lock_guard<std::mutex> lk(S.mu);
     if (pending_append_gens[me] > 0 && (int)Access::all_locks(*g_tbl).size() > pending_append_gens[me]) {
       // the array this thread appended is born locked by it (its locks were taken before it became visible)
       int g = cur_gen();
-      for (size_t i = 0; i < Access::all_locks(*g_tbl).back().size(); ++i) held[me].insert({g, (int)i});
+      for (size_t i = 0; i < std::prev(Access::all_locks(*g_tbl).end())->size(); ++i) held[me].insert({g, (int)i});
+      if (pending_append_ev[me] >= 0) S.trace[pending_append_ev[me]].v = std::prev(Access::all_locks(*g_tbl).end())->size();
       pending_append_gens[me] = 0;
       if (kind == EV_LOCK_REQ || kind == EV_LOCK_ACQ || kind == EV_UNLOCK || kind == EV_LOCK_SPIN) ca = canon_lock(addr);
     }
-    if (kind == EV_LOCKS_APPEND) pending_append_gens[me] = (int)Access::all_locks(*g_tbl).size();
+    if (kind == EV_LOCKS_APPEND) { pending_append_gens[me] = (int)Access::all_locks(*g_tbl).size(); pending_append_ev[me] = (long)S.trace.size(); }
     S.trace.push_back(Ev{me, kind, ca.first, ca.second, (uint64_t)value});
     // ---- monitors ----
     switch (kind) {
@@ -227,7 +244,7 @@ static void handler(int kind, const void *addr, std::size_t value) {
       if (!all) {
         // inside an active locked_table the owner holds everything although lock_all ended long ago
         auto &gens = Access::all_locks(*g_tbl);
-        size_t need = gens.back().size(), have = 0;
+        size_t need = std::prev(gens.end())->size(), have = 0;
         for (auto &h : held[me]) if (h.first == cur_gen()) ++have;
         all = have == need;
       }
@@ -244,11 +261,6 @@ static void handler(int kind, const void *addr, std::size_t value) {
     }
   }
   switch (kind) {
-  // (no switch at EV_UNLOCK: the hook runs before the flag is cleared; a woken waiter runs at the next point)
-  case EV_LOCK_REQ: case EV_HP_LOAD: case EV_HP_STORE: case EV_RC_LOAD: case EV_RC_BUMP:
-  case EV_LOCKS_CURRENT: case EV_LOCKS_APPEND: case EV_LAZY_LOAD: case EV_LAZY_STORE: case EV_LAZY_DEC:
-    sched_point(me);
-    break;
   case EV_LOCK_SPIN: {
     std::unique_lock<std::mutex> lk(S.mu);
     // the lock may have been released between the failed attempt and now only by us yielding; it was not.
@@ -272,7 +284,9 @@ static void handler(int kind, const void *addr, std::size_t value) {
 
 // ------------------------------------------------------------------ thread bodies
 static std::vector<std::vector<OpResult>> g_res;
+static std::string g_init_line;
 
+static std::stringstream g_saved;
 static std::string run_lt(LT &lt, const Op &o) {
   if (o.kind == "ltinsert") { auto r = lt.insert(o.a, o.b); return r.second ? "1" : "0"; }
   if (o.kind == "lterase") return std::to_string(lt.erase(o.a));
@@ -281,6 +295,8 @@ static std::string run_lt(LT &lt, const Op &o) {
   if (o.kind == "ltreserve") { lt.reserve(o.a); return "ok"; }
   if (o.kind == "ltclear") { lt.clear(); return "ok"; }
   if (o.kind == "ltsize") return std::to_string(lt.size());
+  if (o.kind == "ltsave") { g_saved.str(""); g_saved.clear(); g_saved << lt; return "ok"; }
+  if (o.kind == "ltload") { g_saved.seekg(0); g_saved >> lt; return "ok"; }
   if (o.kind == "ltstream") {
     // extract the table's own image into itself through a stream (replaces the bucket array)
     std::stringstream ss; ss << lt; ss >> lt; return "ok";
@@ -430,8 +446,13 @@ static ExecOut execute(uint64_t seed, int mode, int preempts, const std::vector<
   g_res.assign(S.n, {});
   for (int t = 0; t < S.n; ++t) {
     S.st[t] = Sched::RUN; held[t].clear(); in_lockall[t] = lockall_done[t] = false;
-    first_lock_pending_validation[t] = 0; stored_hp_unbumped[t] = false; pending_append_gens[t] = 0;
+    first_lock_pending_validation[t] = 0; stored_hp_unbumped[t] = false; pending_append_gens[t] = 0; pending_append_ev[t] = -1;
     g_res[t].assign(g_prog[t].size(), OpResult());
+  }
+  {
+    g_init_line = "p init " + std::to_string(tbl.hashpower());
+    for (auto &g : Access::all_locks(tbl)) g_init_line += " " + std::to_string(g.size());
+    g_init_line += "\n";
   }
   handler().store(handler);
   std::vector<std::thread> th;
@@ -509,11 +530,36 @@ static ExecOut execute(uint64_t seed, int mode, int preempts, const std::vector<
   return out;
 }
 
+// protocol-trace output for the Lean acceptor (K3 i)
+static std::string ptrace_text() {
+  std::string s = g_init_line;
+  for (auto &e : S.trace) {
+    std::string t = std::to_string(e.tid);
+    switch (e.kind) {
+    case EV_RC_LOAD: s += "p rcL " + t + "\n"; break;
+    case EV_HP_LOAD: if (e.a == 0) s += "p hpL " + t + "\n"; break;
+    case EV_LOCKS_CURRENT: s += "p cur " + t + "\n"; break;
+    case EV_LOCK_ACQ: s += "p acq " + t + " " + std::to_string(e.a) + " " + std::to_string(e.b) + "\n"; break;
+    case EV_UNLOCK: s += "p unl " + t + " " + std::to_string(e.a) + " " + std::to_string(e.b) + "\n"; break;
+    case EV_BUCKET_ACCESS: case EV_FUNCTOR: s += "p acc " + t + " " + std::to_string(Access::lock_ind<Tbl>(e.v)) + "\n"; break;
+    case EV_LOCK_META: s += "p acc " + t + " " + std::to_string(e.v) + "\n"; break;
+    case EV_LOCKALL_BEGIN: s += "p LA< " + t + "\n"; break;
+    case EV_LOCKALL_END: s += "p LA> " + t + "\n"; break;
+    case EV_HP_STORE: if (e.a == 0) s += "p hpS " + t + " " + std::to_string(e.v) + "\n"; break;
+    case EV_LOCKS_APPEND: s += "p app " + t + " " + std::to_string(e.v) + "\n"; break;
+    case EV_RC_BUMP: s += "p rcB " + t + "\n"; break;
+    case 101: s += "p end " + t + " 0\n"; break;
+    default: break;
+    }
+  }
+  return s + "p done\n";
+}
+
 // ------------------------------------------------------------------ input
 static Op parse_op(std::istringstream &is) {
   Op o; is >> o.kind;
   if (o.kind == "section") return o;
-  if (o.kind == "clear" || o.kind == "ltclear" || o.kind == "ltsize" || o.kind == "ltstream") return o;
+  if (o.kind == "clear" || o.kind == "ltclear" || o.kind == "ltsize" || o.kind == "ltstream" || o.kind == "ltsave" || o.kind == "ltload") return o;
   is >> o.a;
   if (o.kind == "insert" || o.kind == "ioa" || o.kind == "update" || o.kind == "upsert" || o.kind == "updatefn" || o.kind == "erasefn" || o.kind == "ltinsert") is >> o.b;
   return o;
@@ -549,14 +595,17 @@ int main() {
       g_prog.push_back(ops);
     } else if (w == "run") {
       // run <mode> <preempts> <seed0> <count> [trace]
-      int mode, pre; uint64_t seed0; long count; std::string opt;
+      int mode, pre; uint64_t seed0; long count; std::string opt, ppath; long pevery = 1;
       is >> mode >> pre >> seed0 >> count >> opt;
+      FILE *pf = nullptr;
+      if (opt == "ptrace") { is >> ppath >> pevery; pf = fopen(ppath.c_str(), "a"); if (pevery < 1) pevery = 1; }
       long bad = 0; size_t events = 0; std::string first_why, first_hist, first_choices, trace;
       uint64_t first_seed = 0;
       for (long i = 0; i < count; ++i) {
         std::string tr;
         ExecOut o = execute(seed0 + i, mode, pre, {}, opt == "trace" && i == 0, &tr);
         if (opt == "trace" && i == 0) trace = tr;
+        if (pf && i % pevery == 0) { std::string pt = ptrace_text(); fwrite(pt.data(), 1, pt.size(), pf); }
         events += o.events;
         if (!o.ok) {
           if (!bad) {
@@ -568,6 +617,7 @@ int main() {
       }
       printf("{\"runs\":%ld,\"bad\":%ld,\"events\":%zu,\"first_seed\":%llu,\"why\":\"%s\",\"history\":\"%s\",\"choices\":\"%s\"", count, bad, events,
              (unsigned long long)first_seed, jesc(first_why).c_str(), jesc(first_hist).c_str(), first_choices.c_str());
+      if (pf) fclose(pf);
       if (opt == "trace") printf(",\"trace\":\"%s\"", jesc(trace).c_str());
       printf("}\n");
       fflush(stdout);
